@@ -387,10 +387,30 @@ type c03Case struct {
 	Body   wireBody       `json:"body"`
 	Script memhttp.Script `json:"script"`
 	Limit  int            `json:"limit,omitempty"` // read limit on the receiving side
+	// SynthLen: the body is not stored; it is the serialized BV message of
+	// exactly this many bytes (threshold family; bodies of many MiB)
+	SynthLen int `json:"synth_len,omitempty"`
+}
+
+// synthUnary returns a serialized BV message (zero bytes as value) of exactly n bytes.
+func synthUnary(n int) []byte {
+	body := codecMarshal(false, &BV{Value: make([]byte, n-5)})
+	if len(body) != n {
+		body = codecMarshal(false, &BV{Value: make([]byte, n-5-(len(body)-n))})
+	}
+	return body
+}
+
+func (k c03Case) body() wireBody {
+	w := k.Body
+	if k.SynthLen > 0 {
+		w.Body = synthUnary(k.SynthLen)
+	}
+	return w
 }
 
 func c03Check(c *ev.Collector, k c03Case, baseline wireObs) {
-	obs := deliverLimited(k.Body, k.Script, false, k.Limit)
+	obs := deliverLimited(k.body(), k.Script, false, k.Limit)
 	tags := []string{"proto=" + k.Body.Proto.String(), "kind=" + k.Body.Kind.String(), map[bool]string{true: "dir=request", false: "dir=response"}[k.Body.Request]}
 	if k.Limit > 0 {
 		tags = append(tags, "read-limit")
@@ -542,11 +562,12 @@ func TestC03(t *testing.T) {
 			t.Fatal(err)
 		}
 		Bubble(t, func() {
-			base := deliverLimited(k.Body, memhttp.Script{Cut: -1, End: "eof"}, false, k.Limit)
+			base := deliverLimited(k.body(), memhttp.Script{Cut: -1, End: "eof"}, false, k.Limit)
 			c03Check(c, k, base)
 		})
 		return
 	}
+	c03SourceThresholds(t, c)
 	var corpus []wireBody
 	Bubble(t, func() { corpus = captureCorpus(thorough) })
 	c.Bound("corpus_bodies", len(corpus))
